@@ -930,6 +930,46 @@ func ruleWrapConcat(p *Prog, r *Report) {
 					return true
 				}
 				return false
+			case *ssa.Call:
+				// a local strings.Builder / bytes.Buffer as the accumulator: everything written to it is an encoder result or a blank
+				if !isCallTo(&x.Call, "(*strings.Builder).String", "(*bytes.Buffer).String") {
+					return false
+				}
+				acc, isLocal := x.Call.Args[0].(*ssa.Alloc)
+				if !isLocal {
+					return false
+				}
+				for _, ref := range *acc.Referrers() {
+					c, isCall := ref.(*ssa.Call)
+					if !isCall {
+						if _, isDbg := ref.(*ssa.DebugRef); isDbg {
+							continue
+						}
+						return false
+					}
+					switch {
+					case isCallTo(&c.Call, "(*strings.Builder).String", "(*bytes.Buffer).String", "(*strings.Builder).Len", "(*bytes.Buffer).Len", "(*strings.Builder).Grow", "(*bytes.Buffer).Grow"):
+					case isCallTo(&c.Call, "(*strings.Builder).Write", "(*bytes.Buffer).Write"):
+						if res[0] == nil || c.Call.Args[1] != res[0] {
+							return false
+						}
+						sawEnc = true
+					case isCallTo(&c.Call, "(*strings.Builder).WriteString", "(*bytes.Buffer).WriteString"):
+						if cv, ok := c.Call.Args[1].(*ssa.Convert); ok && res[0] != nil && cv.X == res[0] {
+							sawEnc = true
+						} else if sc, ok := constString(c.Call.Args[1]); !ok || strings.Trim(sc, " \t\r\n") != "" {
+							return false
+						}
+					case isCallTo(&c.Call, "(*strings.Builder).WriteByte", "(*bytes.Buffer).WriteByte", "(*strings.Builder).WriteRune", "(*bytes.Buffer).WriteRune"):
+						k, ok := constInt(c.Call.Args[1])
+						if !ok || !(k == ' ' || k == '\n' || k == '\t' || k == '\r') {
+							return false
+						}
+					default:
+						return false
+					}
+				}
+				return true
 			}
 			return false
 		}
